@@ -126,7 +126,10 @@ def run(ctx):
         if ctx.replay:
             rp = json.load(open(ctx.replay))
             case = (rp.get("case") or {}).get("case")
-            if isinstance(case, dict) and "hosts" in case:
+            if "real_case" in (rp.get("case") or {}):
+                from vlib import rshreal
+                rshreal.replay_case(ctx, cov, rp["case"]["real_case"])
+            elif isinstance(case, dict) and "hosts" in case:
                 res = T.run_cases(exe_san, [case], ctx.scratch)[0]
                 ctx.log("replay: monitors %s" % (res["M"],))
                 for sig, what in T.offenders(res):
@@ -141,6 +144,9 @@ def run(ctx):
                 ctx.log("replay: the file names no case; re-run the tier instead")
         else:
             explore(ctx, exe_san, exe, variant, cov, dist)
+            if not ctx.violations:
+                from vlib import rshreal
+                rshreal.run_part(ctx, cov, ctx.quick())     # the real rsh module (xrcmd.c EINTR paths), real kernel
             if not ctx.quick() and not ctx.violations:
                 real_runs(ctx, cov)
     return ctx.finish(
